@@ -32,6 +32,8 @@ class World:
         self.seed = seed
         self.ctr = 0
         self.hmac_q = []      # (alg, key, msg, out)
+        self.hmac_idx = {}    # exact index of the fully concrete queries: (alg, key, msg) -> out
+        self.hmac_sym = []    # the queries with a symbolic key or message (a concrete query may equal one of them)
         self.hash_q = []      # (alg, msg, out)
         self.enc = []         # (key, iv, ct, padded_plaintext)
         self.urandom_log = []  # values handed out by os.urandom, in order
@@ -51,6 +53,21 @@ def reset(seed=0):
     global W
     W = World(seed)
     return W
+
+
+try:
+    from crosshair import tracers as _tr
+except ImportError:             # native runs without CrossHair installed
+    _tr = None
+
+
+def _real_bytes(x):
+    """True iff x is an ordinary (concrete) bytes object - decided outside CrossHair's tracer, which makes
+    symbolic byte strings claim the type bytes"""
+    if _tr is not None and _tr.is_tracing():
+        with _tr.NoTracing():
+            return type(x) is bytes
+    return type(x) is bytes
 
 
 def _eq(a, b):
@@ -84,11 +101,26 @@ class _H:
         return _H(self.key, self.msg, self.name)
 
     def digest(self):
-        for (nm, k, m, out) in W.hmac_q:
+        # same oracle as a linear scan over hmac_q, without the quadratic cost on large concrete databases: two
+        # concrete queries are equal iff they are the same dictionary key; only queries with a symbolic part need
+        # the solver
+        concrete = _real_bytes(self.key) and _real_bytes(self.msg)
+        if concrete:
+            hit = W.hmac_idx.get((self.name, self.key, self.msg))
+            if hit is not None:
+                return hit
+            scan = W.hmac_sym
+        else:
+            scan = W.hmac_q
+        for (nm, k, m, out) in scan:
             if nm == self.name and _eq(k, self.key) and _eq(m, self.msg):
                 return out
         out = W.fresh(self.digest_size, b"h")
         W.hmac_q.append((self.name, self.key, self.msg, out))
+        if concrete:
+            W.hmac_idx[(self.name, self.key, self.msg)] = out
+        else:
+            W.hmac_sym.append((self.name, self.key, self.msg, out))
         return out
 
     def hexdigest(self):
